@@ -499,4 +499,142 @@ theorem valid_encodeRune (r : Int) : validRuneB (encodeRune r) = true := by
 theorem endsRune_encodeRune (r : Int) : EndsRune (encodeRune r) :=
   Or.inr ⟨[], encodeRune r, by simp, valid_encodeRune r⟩
 
+/-! ### The converse: a passing tail test means a complete last character -/
+
+
+theorem leadInfo_sz {a : Byte} {sz : Nat} {lo hi : Byte} (h : leadInfo a = some (sz, lo, hi)) :
+    sz = 2 ∨ sz = 3 ∨ sz = 4 := by
+  unfold leadInfo at h
+  repeat' split at h
+  all_goals simp_all
+
+theorem valid_of_decode2 (a b : Byte) (e : Bool) (h : decodeRune [a, b] = (e, 2)) : validRuneB [a, b] = true := by
+  unfold decodeRune at h
+  unfold validRuneB
+  by_cases ha : a < 0x80
+  · simp [ha] at h
+  · have ha' : a ≥ 0x80 := by simpa using ha
+    simp only [ha, if_false] at h
+    cases hl : leadInfo a with
+    | none => simp [hl] at h
+    | some t =>
+      obtain ⟨sz, lo, hi⟩ := t
+      rcases leadInfo_sz hl with rfl | rfl | rfl <;> simp_all
+      all_goals (repeat' split at h)
+      all_goals simp_all
+
+theorem valid_of_decode3 (a b c : Byte) (e : Bool) (h : decodeRune [a, b, c] = (e, 3)) : validRuneB [a, b, c] = true := by
+  unfold decodeRune at h
+  unfold validRuneB
+  by_cases ha : a < 0x80
+  · simp [ha] at h
+  · have ha' : a ≥ 0x80 := by simpa using ha
+    simp only [ha, if_false] at h
+    cases hl : leadInfo a with
+    | none => simp [hl] at h
+    | some t =>
+      obtain ⟨sz, lo, hi⟩ := t
+      rcases leadInfo_sz hl with rfl | rfl | rfl <;> simp_all
+      all_goals (repeat' split at h)
+      all_goals simp_all
+
+theorem valid_of_decode4 (a b c d : Byte) (e : Bool) (h : decodeRune [a, b, c, d] = (e, 4)) : validRuneB [a, b, c, d] = true := by
+  unfold decodeRune at h
+  unfold validRuneB
+  by_cases ha : a < 0x80
+  · simp [ha] at h
+  · have ha' : a ≥ 0x80 := by simpa using ha
+    simp only [ha, if_false] at h
+    cases hl : leadInfo a with
+    | none => simp [hl] at h
+    | some t =>
+      obtain ⟨sz, lo, hi⟩ := t
+      rcases leadInfo_sz hl with rfl | rfl | rfl <;> simp_all
+      all_goals (repeat' split at h)
+      all_goals simp_all
+
+theorem decode_size_le (w : List Byte) : (decodeRune w).2 ≤ 4 := by
+  unfold decodeRune
+  repeat' split
+  all_goals simp
+
+
+theorem decode_single (x : Byte) (hx : ¬ x < 0x80) : decodeRune [x] = (true, 1) := by
+  unfold decodeRune
+  simp only [hx, if_false]
+  cases hl : leadInfo x with
+  | none => rfl
+  | some t =>
+    obtain ⟨sz, lo, hi⟩ := t
+    rcases leadInfo_sz hl with rfl | rfl | rfl <;> simp
+
+/-- **What a good tail is**: if the tail test of `DecodeLastRune` passes, the bytes are empty or end
+in a complete UTF-8 character. -/
+theorem valid_of_not_tailBad (l : List Byte) (h : tailBad l = false) :
+    l = [] ∨ ∃ x w, l = x ++ w ∧ validRuneB w = true := by
+  rw [tailBad_eq_tbR] at h
+  cases hr : l.reverse with
+  | nil => left; simpa using hr
+  | cons last rev =>
+    right
+    have hl : l = rev.reverse ++ [last] := by
+      have := congrArg List.reverse hr
+      simpa using this
+    rw [hr] at h
+    unfold tbR at h
+    by_cases hlast : last < 0x80
+    · exact ⟨rev.reverse, [last], hl, by simp [validRuneB, hlast]⟩
+    · simp only [hlast, if_false] at h
+      generalize hback : (if backScan 3 rev 0 > rev.length then rev.length else backScan 3 rev 0) = back at h
+      have hsplit : l = (rev.drop back).reverse ++ ((rev.take back).reverse ++ [last]) := by
+        rw [hl, ← List.append_assoc, ← List.reverse_append, List.take_append_drop]
+      generalize ht : (rev.take back).reverse = t at h hsplit
+      refine ⟨(rev.drop back).reverse, t ++ [last], hsplit, ?_⟩
+      have hsz := decode_size_le (t ++ [last])
+      cases hd : decodeRune (t ++ [last]) with
+      | mk err size =>
+        rw [hd] at h hsz
+        simp only at h hsz
+        split at h
+        · cases h
+        · rename_i hne
+          have hsize : size = (t ++ [last]).length := by simpa using hne
+          match t, hd, hsize with
+          | [], hd, hsize =>
+            exfalso
+            simp only [List.nil_append, List.length_singleton] at hsize hd
+            subst hsize
+            rw [decode_single last hlast] at hd
+            simp only [Prod.mk.injEq] at hd
+            obtain ⟨rfl, _⟩ := hd
+            simp at h
+          | [a], hd, hsize =>
+            simp only [List.cons_append, List.nil_append, List.length_cons, List.length_nil] at hsize hd ⊢
+            subst hsize
+            exact valid_of_decode2 a last err hd
+          | [a, b], hd, hsize =>
+            simp only [List.cons_append, List.nil_append, List.length_cons, List.length_nil] at hsize hd ⊢
+            subst hsize
+            exact valid_of_decode3 a b last err hd
+          | [a, b, c], hd, hsize =>
+            simp only [List.cons_append, List.nil_append, List.length_cons, List.length_nil] at hsize hd ⊢
+            subst hsize
+            exact valid_of_decode4 a b c last err hd
+          | a :: b :: c :: d :: r, hd, hsize =>
+            exfalso
+            simp only [List.cons_append, List.length_cons, List.length_append, List.length_nil] at hsize
+            omega
+
+/-- The tail test of `InternalEscapeBytes` passes exactly on byte strings that are empty or end in a
+complete UTF-8 character (`EndsRune`). -/
+theorem tailBad_false_iff (l : List Byte) : tailBad l = false ↔ EndsRune l := by
+  constructor
+  · intro h
+    rcases valid_of_not_tailBad l h with rfl | ⟨x, w, rfl, hw⟩
+    · exact Or.inl rfl
+    · exact Or.inr ⟨x, w, rfl, hw⟩
+  · rintro (rfl | ⟨x, w, rfl, hw⟩)
+    · decide
+    · exact tailBad_valid x w hw
+
 end Redact
